@@ -26,11 +26,12 @@ mv /tmp/mut/$1.demo.go $demo
 echo "== demo with change (must fail)" >> $log
 go test -vet=off -count=1 -run 'ZZDemo|Demo' $demopkg >> $log 2>&1; dw=$?
 echo "demo-with-change rc=$dw" >> $log
-git stash -q -- $(git diff --name-only)
+git diff > /tmp/mut/$1.confirm.patch
+git checkout -q -- $(git diff --name-only)
 echo "== demo without change (must pass)" >> $log
 go test -vet=off -count=1 -run 'ZZDemo|Demo' $demopkg >> $log 2>&1; dn=$?
 echo "demo-without-change rc=$dn" >> $log
-git stash pop -q
+git apply /tmp/mut/$1.confirm.patch
 python3 - <<PY
 import json
 json.dump({"property":"$prop","worktree":"$d","demo":"$demo","build_rc":$b,"existing_test_fail_lines":$t,"demo_with_change_rc":$dw,"demo_without_change_rc":$dn,
